@@ -278,6 +278,9 @@ EXTRA = {
 }
 # planted changes whose trigger is narrow enough that the default quick budget (700 histories) is not a reliable catch:
 # run the same check with more histories (thorough tier finds them; said so in DESIGN.md 9.5)
+# not in the table: the revert of fix b09015f (CompoundInterval.end) - its history-dependent symptom (reverse() twice on a
+# nested-block, non-plus-strand location) shows in about 1 of 3 000 generated histories even after nested blocks and echo
+# steps were added to the generator; it is thorough-tier material (found there: seed 1202, run 7395 of 36 000).
 RUNS = {"c10_single_interval_sequence_memo_ignores_strand": 2500}
 
 
